@@ -211,6 +211,7 @@ MUTANTS['C20'] = [
 ]
 
 MUTANTS['C04'] = [
+  ('pickled-disk-cache-copy-owns-the-directory', [(C, "        state = self.__dict__.copy()\n        state['clear'] = False\n        return state", "        state = self.__dict__.copy()\n        return state")]),
   ('lpm-takes-newest-future', [(P, "                if q.qsize() >= buffer_size:\n                    yield result(q.get())", "                if q.qsize() >= buffer_size:\n                    _all = [q.get() for _ in range(q.qsize())]\n                    yield result(_all.pop())\n                    for _f in _all:\n                        q.put(_f)")]),
   ('lpm-yields-completed-first', [(P, "            while not q.empty():\n                yield result(q.get())", "            _rest = [q.get() for _ in range(q.qsize())]\n            _rest.sort(key=lambda f: not f.done())\n            for _f in _rest:\n                yield result(_f)")]),
   ('lpm-drops-last', [(P, "            while not q.empty():\n                yield result(q.get())", "            while q.qsize() > 1:\n                yield result(q.get())")]),
